@@ -15,7 +15,22 @@ func bigLen(rng *rand.Rand, thorough bool, i int) int {
 	return bigLens[rng.Intn(len(bigLens))]
 }
 
+// sameWidthPairs: caller-slice / buffer element types of equal width but different representation
+var sameWidthPairs = [][2]string{{"float32", "int32"}, {"int32", "float32"}, {"float32", "uint32"}, {"uint32", "float32"},
+	{"float64", "int64"}, {"int64", "float64"}, {"uint64", "float64"}, {"float64", "uint"}, {"int", "float64"}, {"float64", "uintptr"}}
+
 func driveBigIO(s *shardSet, rng *rand.Rand, thorough bool) {
+	for _, p := range sameWidthPairs { // p[0] = caller slice type, p[1] = buffer type
+		w := s.Next()
+		w.Reset()
+		ch := 1 + rng.Intn(2)
+		l := (64 + rng.Intn(70)) / ch
+		b := w.filledRoot(p[1], ch, l+1)
+		m := w.Views[b].Len()
+		w.Write(b, p[0], w.stamps(m))
+		w.Read(b, p[0], m)
+		w.Write(b, p[0], w.stamps(m-3))
+	}
 	n := 26
 	if thorough {
 		n = 13 * len(bigLens)
